@@ -377,7 +377,9 @@ func runC08(c *mon.Ctx) {
 			try(fmt.Sprintf("bufio=%d/auto", bs), s.Bytes, DemuxCfg{Reader: "bufio", BufioSize: bs, API: api}, false, "full+small-bufio+auto")
 			c.Count("small_bufio_auto_runs")
 		}
-		for _, k := range []int{4096 - 188, 4097 - 188, 5000 - 188} {
+		// sizes that stand in a relation to 188 (whole multiples: the datagram sizes 376 … 1316), to 184, to powers of two
+		rel := []int{188, 2 * 188, 6 * 188, 187, 189, 184, 256 - 188, 512 - 188, 1024 - 188, 65536 - 188}
+		for _, k := range []int{4096 - 188, 4097 - 188, 5000 - 188, rel[int(i)%len(rel)], rel[int(i/3+1)%len(rel)]} {
 			ex := gen.Bytes(r, k)
 			huge := refts.Reframe(s.Bytes, k, func(p, j int) byte { return ex[j] ^ byte(p) })
 			for _, rd := range readers {
